@@ -12,6 +12,14 @@ theorem nLog_append (t : List Ev) (e : Ev) : nLog (t ++ [e]) = nLog t + (if isLo
   simp only [nLog, List.filter_append, List.length_append]
   cases h : isLog e <;> simp [h]
 
+theorem snd_append2 (t : List Ev) (a b : Ev) : snd (t ++ [a, b]) = sndStep (sndStep (snd t) a) b := by
+  simp [snd, List.foldl_append]
+
+theorem nLog_append2 (t : List Ev) (a b : Ev) :
+    nLog (t ++ [a, b]) = nLog t + (if isLog a then 1 else 0) + (if isLog b then 1 else 0) := by
+  have : t ++ [a, b] = (t ++ [a]) ++ [b] := by simp
+  rw [this, nLog_append, nLog_append]
+
 @[simp] theorem snd_resetUpstream (c : Cfg) (s : S) : snd (resetUpstream c s).trace = snd s.trace := by
   unfold resetUpstream
   split
